@@ -71,6 +71,10 @@ CHECKS = {
 }
 
 
+# checks that have passed the silence soak and are registered (the others are still being built)
+READY = ["C01", "C11", "C12", "C16"]
+
+
 def main():
     props = [json.loads(l)["id"] for l in open(os.path.join(V, "properties.jsonl"))]
     hooks = subprocess.run("git -C /repo log --format=%H --grep='^verif hook' --reverse", shell=True,
@@ -82,7 +86,7 @@ def main():
         na_reasons = json.load(open(p))
     for pid in props:
         c = CHECKS[pid]
-        if os.path.exists(os.path.join(V, "nlv", "checks", pid.lower() + ".py")) and pid not in na_reasons:
+        if pid in READY and os.path.exists(os.path.join(V, "nlv", "checks", pid.lower() + ".py")) and pid not in na_reasons:
             checks.append({
                 "property_id": pid,
                 "quick_cmd": "./check %s --tier quick" % pid,
